@@ -5,7 +5,6 @@ package scen
 import (
 	"context"
 	"fmt"
-	"os"
 	"sort"
 	"sync"
 	"time"
@@ -190,38 +189,7 @@ func (r *c26Run) Main(s *sim.Sim) {
 			return
 		}
 		id := c.ID
-		if os.Getenv("VERIF_WIRE") != "" {
-			wl := func(dir string) func(fr []byte) {
-				return func(fr []byte) {
-					if svc, ok := decodeNone(fr); ok {
-						extra := ""
-						switch x := svc.(type) {
-						case *ua.ServiceFault:
-							extra = x.ResponseHeader.ServiceResult.Error()
-						case *ua.CreateSubscriptionResponse:
-							extra = fmt.Sprint("id=", x.SubscriptionID)
-						case *ua.DeleteSubscriptionsRequest:
-							extra = fmt.Sprint(x.SubscriptionIDs)
-						case *ua.CreateMonitoredItemsRequest:
-							extra = fmt.Sprint("sub=", x.SubscriptionID, " n=", len(x.ItemsToCreate))
-						case *ua.PublishResponse:
-							extra = fmt.Sprint("h=", x.ResponseHeader.RequestHandle, " sub=", x.SubscriptionID, " seq=", x.NotificationMessage.SequenceNumber, " nd=", len(x.NotificationMessage.NotificationData), " res=", x.Results)
-						case *ua.PublishRequest:
-							var a []string
-							for _, k := range x.SubscriptionAcknowledgements {
-								a = append(a, fmt.Sprintf("%d/%d", k.SubscriptionID, k.SequenceNumber))
-							}
-							extra = fmt.Sprint("h=", x.RequestHeader.RequestHandle, " acks=", a)
-						}
-						fmt.Fprintf(os.Stderr, "W %10v c%d %s %T %s\n", s.Now(), id, dir, svc, extra)
-					} else {
-						fmt.Fprintf(os.Stderr, "W %10v c%d %s %s\n", s.Now(), id, dir, string(fr[:4]))
-					}
-				}
-			}
-			c.C2S.Observers = append(c.C2S.Observers, wl(">"))
-			c.S2C.DeliveredObservers = append(c.S2C.DeliveredObservers, wl("<"))
-		}
+		wireLog(s, c)
 		c.S2C.DeliveredObservers = append(c.S2C.DeliveredObservers, func(fr []byte) {
 			if svc, ok := decodeNone(fr); ok {
 				if pr, ok := svc.(*ua.PublishResponse); ok && pr.NotificationMessage != nil {
